@@ -191,6 +191,7 @@ def cross_crs(run):
              ('tmerc27/utm35s', tm(27), CRS.from_epsg(32735), (500_000.0, 6_250_000.0))]
     k = 0
     small_overhang(run, tmp)
+    elongated_reference(run, tmp)
     for name, scrs, rcrs, (rx0, rytop) in pairs:
         rres, rw, rh = 10.0, 400, 400
         rt = Affine(rres, 0, rx0, 0, -rres, rytop)
@@ -328,3 +329,57 @@ def small_overhang(run, tmp):
                                 f'source {-over:.2f} reference pixels inside the reference ({side}, proc_crs={proc}) was rejected'
                                 if got == 0 else f'construction raised {got}')
                         run.fail(case, what, signature=dict(kind='cross-crs-small', proc=proc, accepted=got == 1))
+
+
+def elongated_reference(run, tmp):
+    """
+    Very elongated references (a 4 x 2 000 000 pixel strip, and its transpose; sparse files): the tolerance of the coverage test
+    is a small fraction of a pixel whatever the size of the reference - a source one pixel, half a pixel or a twentieth of a pixel
+    over the far edge is rejected, a source flush with it or inside is accepted.
+    """
+    import warnings
+    import numpy as np
+    import rasterio as rio
+    from rasterio.transform import Affine
+    from homonim import RasterFuse, RasterCompare
+    from homonim.errors import ImageContentError
+    N = 2_000_000
+    x0, ytop = 8_000.0, 3_000_000.0
+    k = 0
+    for (rw, rh) in ((N, 4), (4, N)):
+        rp = tmp / f'c16el_r{rw}.tif'
+        with rio.open(rp, 'w', driver='GTiff', width=rw, height=rh, count=1, dtype='uint8', crs=rasters.CRS3857,
+                      transform=Affine(1.0, 0, x0, 0, -1.0, ytop), nodata=0, SPARSE_OK=True,
+                      **(dict(tiled=True, blockxsize=512, blockysize=512) if rh > 16 else {})):
+            pass
+        for over in (1.0, 0.5, 0.05, 0.0, -1.0):
+            sw = sh = 2
+            if rw > rh:     # over the right edge
+                sx0, sytop = x0 + rw - sw + over, ytop - 1
+            else:           # over the bottom edge
+                sx0, sytop = x0 + 1, ytop - rh + sh - over
+            sp = tmp / 'c16el_s.tif'
+            with rio.open(sp, 'w', driver='GTiff', width=sw, height=sh, count=1, dtype='uint8', crs=rasters.CRS3857,
+                          transform=Affine(1.0, 0, sx0, 0, -1.0, sytop), nodata=0) as ds:
+                ds.write(np.ones((1, sh, sw), dtype='uint8'))
+            for cls in (RasterFuse, RasterCompare):
+                k += 1
+                case = dict(i=870_000 + k, op='elongated reference', ref_shape=(rh, rw), overhang_px=over, cls=cls.__name__)
+                try:
+                    with warnings.catch_warnings():
+                        warnings.simplefilter('ignore')
+                        with cls(sp, rp):
+                            pass
+                    got = 1
+                except ImageContentError:
+                    got = 0
+                except Exception as ex:
+                    got = f'other:{type(ex).__name__}:{str(ex)[:60]}'
+                run.evaluations += 1
+                run.hist['elongated reference cases'] += 1
+                run.nontrivial.add(('elongated', rw, over, cls.__name__))
+                if got != (0 if over > 0 else 1):
+                    run.fail(case, (f'source {over} pixels over the far edge of a {rh} x {rw} reference was accepted' if got == 1 else
+                                    f'source {"flush with" if over == 0 else "inside"} the far edge of a {rh} x {rw} reference was rejected'
+                                    if got == 0 else f'construction raised {got}'),
+                             signature=dict(kind='elongated', accepted=got == 1))
